@@ -27,7 +27,11 @@ def candidate_names(vocab, tier):
             BASE_OF[s + m] = (s, m)
     names += ["Neu5Ac", "Neu5Gc", "Neu5Ac9Ac", "Neu4,5Ac2", "GlcNAc6S", "GalNAc4S", "IdoA2S", "GlcNS", "GlcNS6S", "GlcN", "GalN", "ManN", "Kdn", "Neu5,9Ac2",
               "1,6-Anhydro-Glc", "3,6-Anhydro-Gal", "1,6-Anhydro-Man", "2,6-Anhydro-Man", "MurNAc", "Bac2,4NAc", "Leg5,7Ac2", "Pse5,7Ac", "GlcA3S", "ManA", "GulA", "GalA",
-              "Glc6Ole", "Glc3Lin", "Glc2Cin", "LDManHep", "DDManHep", "6dTal", "6dAlt", "Gal3,4Pyr"]
+              "Glc6Ole", "Glc3Lin", "Glc2Cin", "LDManHep", "DDManHep", "6dTal", "6dAlt", "Gal3,4Pyr",
+              # residues written with several tokens: chain-length names, two modifications, series prefix + modification
+              "ManHep", "GalHep", "GlcOct", "AraHex", "XylHex", "GlcHep6S", "D-ManHep", "Glc3S6S", "GlcNAc3S6S", "Gal2Ac3Ac", "Man6P2Ac", "GlcN3S", "GlcN6S",
+              "D-GlcNAc", "L-Fuc2Ac", "L-IdoA2S", "D-Araf", "L-Araf", "Neu5Ac8Ac9Ac", "Kdo8P", "Gal4S6S", "GalNAc4S6S", "Rha2Ac3Ac", "Xyl2S3S", "D-Galf", "L-Rha3Me",
+              "ManNAc", "ManNAcA", "GlcNAcA", "FucNAc", "QuiNAc", "Fuc4N", "Qui4NAc", "GalA2Ac", "GlcA2S3S"]
     seen, out = set(), []
     for n in names:
         if n not in seen:
